@@ -2,7 +2,7 @@ SPECIFICATION Spec
 CONSTANTS
   Topics = {"a", "b"}
   MaxInst = 3
-  MaxCalls = 4
+  MaxCalls = 3
   FlushOnDrop = TRUE
   FlushByLastRef = FALSE
   GenGuard = TRUE
@@ -10,5 +10,5 @@ CONSTANTS
   Prompt = TRUE
   KeepHist = TRUE
 VIEW View
-INVARIANTS TypeOK C17Cex FileAfterDrop GenNotAhead ClosedMeansGone Emit
+INVARIANTS TypeOK C17Cex FileAfterDrop GenNotAhead ClosedMeansGone SingleWriter Emit
 CHECK_DEADLOCK FALSE
